@@ -100,6 +100,10 @@ def validate(ctx, traces, prop, kind):
             key = "%s:%s" % (prop, d["clause"])
             if d["clause"] in ("Total",):
                 key += ":%s:%s" % (e.get("s", e["act"]), e.get("raised", "").split(":")[0])
+                if e.get("s") in (">>>", "<<<", "<<", ">>", ".>>"):
+                    wd = [t["w"]] * c01.NLEAVES + [c.get("rw", 0) for c in t["ev"] if "rw" in c]
+                    if wd[e["j"] - 1] < wd[e["i"] - 1]:
+                        key += ":amount-narrower-than-operand"
             elif d["clause"] == "EvalTotal":
                 what = [x.get("what", "") for x in e["vals"][d["env"] - 1] if x["h"] == d["h"]]
                 key += ":%s:%s" % (d.get("top", "?"), (what or [""])[0].split(":")[0])
